@@ -47,7 +47,9 @@ class JSONReader(TextToModel):
 def parse_tree(parent: Optional[Feature], feature_node: Dict[str, Any]) -> Feature:
     """Parse the tree structure and returns the root feature."""
     feature_name = feature_node['name']
-    is_abstract = feature_node['abstract']
+    abstract = feature_node['abstract']
+    # Older files carry the flag as the text 'True' / 'False'
+    is_abstract = abstract.lower() == 'true' if isinstance(abstract, str) else bool(abstract)
     feature = Feature(name=feature_name, parent=parent, is_abstract=is_abstract)
 
     parse_attributes(feature, feature_node)
